@@ -23,7 +23,7 @@ const FRAME_MUTATIONS: &[&str] = &[
     "close_empty", "close_no_terminator", "query_no_terminator", "query_embedded_nul", "query_empty_body", "execute_empty",
     "execute_no_terminator", "execute_without_bind", "bind_without_parse", "sync_only", "copydata_outside_copy", "copydone_outside_copy", "copyfail_outside_copy", "bind_after_refused_named_parse",
     "password_message", "flush_only", "function_call", "random_garbage", "terminate_with_body", "many_syncs", "custom_command_huge_number",
-    "query_answered_with_non_utf8_error", "parse_answered_with_non_utf8_error", "short_length_then_sync",
+    "query_answered_with_non_utf8_error", "parse_answered_with_non_utf8_error", "short_length_then_sync", "cached_and_new_parse_then_reset",
 ];
 
 thread_local! {
@@ -136,7 +136,7 @@ fn hostile_frames(rng: &mut Rng, m: &str) -> Vec<u8> {
             v.extend(proto::sync());
             v
         }
-        "sync_only" => proto::sync(),
+        "sync_only" | "cached_and_new_parse_then_reset" => proto::sync(),
         "copydata_outside_copy" => proto::copy_data(b"1\t2\n"),
         "copydone_outside_copy" => proto::copy_done(),
         "copyfail_outside_copy" => proto::copy_fail("stray"),
@@ -347,6 +347,23 @@ fn batch(seed: u64, cases: usize, rep: &Report) -> Result<(), String> {
                         }
                         _ => {}
                     }
+                    if mutation == "cached_and_new_parse_then_reset" {
+                        // a batch the pooler answers partly by itself (a statement the server connection
+                        // already has) and that prepares a new statement (the text the canary prepares
+                        // next); the sender resets its connection without reading anything
+                        let known = "SELECT 3 /*v q=hostile.known rows=1 */";
+                        let mut b = proto::parse("hk", known, &[]);
+                        b.extend(proto::sync());
+                        let _ = c.send(&b);
+                        let _ = c.read_until_ready(3000);
+                        let mut b = proto::parse("hk2", known, &[]);
+                        b.extend(proto::parse("hn", &shared_text(), &[]));
+                        b.extend(proto::sync());
+                        let _ = c.send(&b);
+                        c.close_rst();
+                        sleep_ms(40);
+                        return Ok(());
+                    }
                     let _ = c.send(&hostile_frames(&mut Rng::new(seed ^ ci as u64), mutation));
                     // a second pool must be unaffected while the hostile client is still connected
                     n += 1;
@@ -486,7 +503,7 @@ pub fn run(tier: &str) -> i32 {
         "C11",
         tier,
         "exploration",
-        "case = protocol state {pre-startup, mid-auth, idle, in transaction, mid-batch, in COPY, admin console} x mutation (14 startup mutations, 41 frame/body/order mutations incl. lengths <4, negative, beyond/below body, 64 MiB declared, unknown types, missing terminators, negative/oversized counts, parameter lengths beyond the frame, embedded NULs, messages in invalid order); after each case: process liveness, a canary transaction on the shared pool_size=1 pool (own correct reply, clean inherited session), a canary on a second pool during the attack, capacity probe and admin console every 10 cases; plus a leg on a pool with two replicas where SHOW BANS must stay empty after every hostile but well-framed sequence; distinct = distinct (state, mutation) pairs",
+        "case = protocol state {pre-startup, mid-auth, idle, in transaction, mid-batch, in COPY, admin console} x mutation (14 startup mutations, 42 frame/body/order mutations incl. lengths <4, negative, beyond/below body, 64 MiB declared, unknown types, missing terminators, negative/oversized counts, parameter lengths beyond the frame, embedded NULs, messages in invalid order); after each case: process liveness, a canary transaction on the shared pool_size=1 pool (own correct reply, clean inherited session), a canary on a second pool during the attack, capacity probe and admin console every 10 cases; plus a leg on a pool with two replicas where SHOW BANS must stay empty after every hostile but well-framed sequence; distinct = distinct (state, mutation) pairs",
     );
     rep.assume("declared lengths are capped at 64 MiB in verdict-bearing cases; memory exhaustion by larger declared lengths is measured (RSS) but not judged");
     rep.assume("panics confined to the sender's task are allowed by the property; they are catalogued, not judged");
